@@ -18,6 +18,7 @@ Definition evs (nt : net) (s : state) (a : action) : list tev :=
   | SrcReturnNil => match src s with SRunning k => [TEnd k true] | _ => [] end
   | SrcReturnErr => match src s with SRunning k => [TEnd k false] | _ => [] end
   | SrcRestart => match src s with SSleeping k => [TStart (S k); TPrep (S k)] | _ => [] end
+  | SrcSetupFail => match src s with SSleeping k => [TPrepFail (S k)] | _ => [] end
   | MainWgDone => [TDone true]
   | MainTimeout => [TDone false]
   | Deq n w => match q (node s n) with it :: _ => [TEnter n it] | [] => [] end
@@ -46,6 +47,7 @@ Definition src_after (s : state) (a : action) : sstate :=
   | SrcReturnNil => SClosed
   | SrcReturnErr => match src s with SRunning k => SSleeping k | x => x end
   | SrcRestart => match src s with SSleeping k => SRunning (S k) | x => x end
+  | SrcSetupFail => match src s with SSleeping k => SDead | x => x end
   | _ => src s
   end.
 
@@ -77,7 +79,7 @@ Definition guard (nt : net) (s : state) (a : action) : Prop :=
   match a with
   | SrcEmit _ => (exists k, src s = SRunning k) /\ mn s = MSelect
   | SrcReturnNil | SrcReturnErr => exists k, src s = SRunning k
-  | SrcRestart => exists k, src s = SSleeping k
+  | SrcRestart | SrcSetupFail => exists k, src s = SSleeping k
   | MainSend => exists it r rs, mn s = MDeliver it (r :: rs)
   | MainSeeClosed => mn s = MSelect /\ src s = SClosed
   | MainCloseRoots => mn s = MCloseRoots
@@ -289,6 +291,8 @@ Proof.
     constructor; cbn [evs mn_after src_after once_after closing_after closes guard]; autorewrite with fb; eauto;
       intros m; destruct (Hsl m) as (a0 & b0 & c0 & _); rewrite ?node_set_cbs; try congruence.
     rewrite c0. auto.
+  - (* SrcSetupFail *)
+    destruct (src s) eqn:Es; try discriminate. injection H as <-. constructor; cbn; rewrite ?Es; eauto.
 Qed.
 
 (* ------------------------------------------------------------------ the link invariant *)
@@ -314,6 +318,8 @@ Record inv_link (nt : net) (s : state) : Prop := {
   (* (e), (f) *)
   k_nil : any_nil_end (tr s) = match src s with SClosed => true | _ => false end;
   k_run : src_running (tr s) = match src s with SRunning _ => true | _ => false end;
+  (* a Setup of a replacement source has failed <-> the process is gone *)
+  k_dead : any_prepfail (tr s) = match src s with SDead => true | _ => false end;
   (* (g) *)
   k_calls : forall n, n < length nt -> open_calls n (tr s) = length (filter is_wproc (ws (node s n)));
   (* (h) main closes the roots only after it has seen the source channel closed *)
@@ -496,6 +502,7 @@ Proof.
     + rewrite G in K8. exact K8.
     + destruct G as [Hm _]. rewrite Hm in K8. exact K8.
     + rewrite G in K8. exact K8.
+    + destruct G as [k Hk]. rewrite Hk in *. destruct (mn s); auto; discriminate.
 Qed.
 
 (* ---- reachable states ---- *)
@@ -532,17 +539,25 @@ Qed.
 Lemma nil_end_failed : forall k, any_nil_end (ExecMain.failed k) = false.
 Proof. induction k; cbn; auto. Qed.
 
+Lemma prepfail_failed : forall k, any_prepfail (ExecMain.failed k) = false.
+Proof. induction k; cbn; auto. Qed.
+
 Lemma src_clauses : forall s, ExecMain.src_history s ->
   any_nil_end (tr s) = match src s with SClosed => true | _ => false end
-  /\ src_running (tr s) = match src s with SRunning _ => true | _ => false end.
+  /\ src_running (tr s) = match src s with SRunning _ => true | _ => false end
+  /\ any_prepfail (tr s) = match src s with SDead => true | _ => false end.
 Proof.
   intros s Hh. unfold ExecMain.src_history in Hh.
-  rewrite <- src_running_src_evs. unfold any_nil_end.
+  rewrite <- src_running_src_evs. unfold any_nil_end, any_prepfail.
   rewrite <- (has_src_evs _ (tr s)) by (intros [] He; try discriminate; reflexivity).
+  rewrite <- (has_src_evs (fun e => match e with TPrepFail _ => true | _ => false end) (tr s))
+    by (intros [] He; try discriminate; reflexivity).
+  fold any_prepfail.
   destruct (src s).
-  - rewrite Hh. split; [|reflexivity]. cbn. apply nil_end_failed.
-  - rewrite Hh. split; [|reflexivity]. apply (nil_end_failed (S k)).
-  - destruct Hh as [k Hh]. rewrite Hh. split; reflexivity.
+  - rewrite Hh. split; [|split; [reflexivity|]]; cbn; [apply nil_end_failed|apply prepfail_failed].
+  - rewrite Hh. split; [|split; [reflexivity|]]; [apply (nil_end_failed (S k))|apply (prepfail_failed (S k))].
+  - destruct Hh as [k Hh]. rewrite Hh. split; [|split]; try reflexivity. cbn. apply prepfail_failed.
+  - destruct Hh as [k Hh]. rewrite Hh. split; [|split]; try reflexivity. cbn. apply (nil_end_failed (S k)).
 Qed.
 
 (* calls in progress, length form of p1's inv_calls *)
@@ -561,7 +576,7 @@ Theorem link_reachable : forall nt T s, wf_net nt = true -> reachable nt T s -> 
 Proof.
   intros nt T s Hwf HR.
   destruct (link_core_reachable nt T s Hwf HR) as [K1 K2 K3 K4 K5 K6 K7 K8].
-  destruct (src_clauses s (ExecMain.source_history_reachable nt T s HR)) as [Knil Krun].
+  destruct (src_clauses s (ExecMain.source_history_reachable nt T s HR)) as (Knil & Krun & Kdead).
   destruct (life'_reachable nt T s Hwf HR) as [Hs I].
   constructor; auto.
   - intros n Hn. eapply open_calls_reachable; eauto.
